@@ -792,9 +792,12 @@ func (g *c12glue) evCHeartbeatF(lost, trySyncFail bool) bool {
 			}
 		}
 		before := len(g.cache(n))
+		var undo func() bool
 		if syncFail {
-			if e := g.sh.SetReadOnlyMode(true); e != core.NoError {
-				g.fail = "could not set curator read-only mode: " + e.String()
+			reason := g.r.Intn(2)
+			g.stat(fmt.Sprintf("glue.ev.cheartbeat.syncfail.reason=%d", reason))
+			var ok bool
+			if undo, ok = g.breakCommit(reason); !ok {
 				return false
 			}
 		}
@@ -803,8 +806,7 @@ func (g *c12glue) evCHeartbeatF(lost, trySyncFail bool) bool {
 			return false
 		}
 		if syncFail {
-			if e := g.sh.SetReadOnlyMode(false); e != core.NoError {
-				g.fail = "could not clear curator read-only mode: " + e.String()
+			if !undo() {
 				return false
 			}
 			var l vw.L
@@ -837,6 +839,83 @@ func (g *c12glue) evCHeartbeatF(lost, trySyncFail bool) bool {
 	l.AddList(c12parts(ps))
 	_, dps := g.durableInfo()
 	l.AddList(dps)
+	g.obs(l...)
+	return true
+}
+
+// breakCommit makes the next proposal of the curator group's durable handler fail transiently, for one of the
+// reasons the code can meet: 0 = read-only window (ErrReadOnlyMode from Apply), 1 = the term the glue reads with
+// GetTerm() is not raft's term any more (leadership changed between receiving and committing: ErrTermMismatch).
+// The returned function undoes it.
+func (g *c12glue) breakCommit(reason int) (func() bool, bool) {
+	switch reason {
+	case 0:
+		if e := g.sh.SetReadOnlyMode(true); e != core.NoError {
+			g.fail = "could not set curator read-only mode: " + e.String()
+			return nil, false
+		}
+		return func() bool {
+			if e := g.sh.SetReadOnlyMode(false); e != core.NoError {
+				g.fail = "could not clear curator read-only mode: " + e.String()
+				return false
+			}
+			return true
+		}, true
+	default:
+		t, ld := g.sh.GetTerm(), g.sh.LeaderID()
+		g.sh.OnLeadershipChange(true, t+7, ld)
+		return func() bool {
+			g.sh.OnLeadershipChange(true, t, ld)
+			return true
+		}, true
+	}
+}
+
+// evCMonitorCommitFail: one partition-monitor round in which the master assigns a partition, the reply arrives, and
+// the AddPartition commit fails transiently; the loop must `continue` without touching c.partitions.
+func (g *c12glue) evCMonitorCommitFail(reason int) bool {
+	k := g.leader
+	n := g.nodes[k]
+	p, err := g.masterNewPartition(n.id)
+	if err != core.NoError {
+		// nothing to commit: an ordinary round that the master refused
+		g.op(26, int64(k), 0)
+		g.stat(fmt.Sprintf("glue.ev.cmonitor.lost=0.err=%d", err))
+		call := n.monC
+		n.monC = nil
+		call.resp <- c12resp{err: err}
+		if !g.await(n, "next monitor round", func() bool { return n.monC != nil }) {
+			return false
+		}
+		_, after := g.durableInfo()
+		var l vw.L
+		l.Add(c12res(p, err)...)
+		l.Add(0)
+		l.AddList(after)
+		g.obs(l...)
+		return true
+	}
+	g.op(31, int64(k))
+	g.stat(fmt.Sprintf("glue.ev.cmonitor.commitfail.reason=%d", reason))
+	call := n.monC
+	n.monC = nil
+	_, before := g.durableInfo()
+	undo, ok := g.breakCommit(reason)
+	if !ok {
+		return false
+	}
+	call.resp <- c12resp{part: core.PartitionID(p)}
+	if !g.await(n, "next monitor round", func() bool { return n.monC != nil }) {
+		return false
+	}
+	if !undo() {
+		return false
+	}
+	_, after := g.durableInfo()
+	var l vw.L
+	l.Add(c12res(p, err)...)
+	l.AddBool(len(after) > len(before))
+	l.AddList(after)
 	g.obs(l...)
 	return true
 }
@@ -1034,7 +1113,11 @@ func (g *c12glue) run() {
 				if g.r.Chance(1, 2) {
 					ok = g.evCHeartbeatF(g.r.Chance(1, 4), true)
 				} else {
-					ok = g.evCMonitor(g.r.Chance(1, 3))
+					if g.r.Chance(1, 4) {
+						ok = g.evCMonitorCommitFail(g.r.Intn(2))
+					} else {
+						ok = g.evCMonitor(g.r.Chance(1, 3))
+					}
 				}
 			}
 		}
